@@ -3,7 +3,7 @@ import TunnoxModel.Spec.C12
 /-!
 Line protocol for C12.
 
-  tcp A [<kind cw|same|split|none>] <eof|err> <fused 0|1> <wfail n|-> <closeOnTail 0|1> <k> <bytes>*k  B … (same) …  s <schedule over a,b,A,B,x,y | ->
+  tcp A [<kind cw|same|split|none>] <eof|err|hold> <fused 0|1> <wfail n|-> <closeOnTail 0|1> <k> <bytes>*k  B … (same) …  s <schedule over a,b,A,B,x,y | ->
   udp U <eof|err|hold> <k> (<bytes>|t)*k  T <eof|err|hold> <fused> tds <k> <bytes>*k cut <n> junk <bytes> ch <k> <size>*k  s <schedule over u,t,U,T,w,v | ->
   (capital = the Write issued by this step stays in progress; x/y resp. w/v = it completes)
 
@@ -56,7 +56,7 @@ def kindOf : String → Option Kind
 
 def parseEPk (kind : Kind) : List String → Option (EP × List String)
   | tl :: fu :: wf :: cot :: k :: ts => do
-    let tail ← tailOfString tl
+    let tail ← tlOf tl
     let fused ← bitOf fu
     let wfail ← (if wf == "-" then some none else wf.toNat?.map some)
     let cot ← bitOf cot
